@@ -127,7 +127,37 @@ def build():
 made = build()
 made
 ''',
+    # a counter that dynamic parameter search restores in a finally block: two never-called
+    # mutually recursive functions (the recursion guard fires) and a function with 16 call
+    # sites of different types (more than the 10 a leaked depth would still look at)
+    'u:dynamic-params': '''\
+def many(vv):
+    return vv
+def ping(xx):
+    pong(xx)
+    return xx
+def pong(yy):
+    ping(yy)
+    return yy
+many(1)
+many('a')
+many(2.0)
+many([])
+many({})
+many(())
+many(None)
+many(b'')
+many(set())
+many(1j)
+many(range(1))
+many(frozenset())
+many(bytearray())
+many(object())
+many(len)
+''',
 }
+# per-program overrides of the event alphabet: {program: {event index: (method, line, column)}}
+EVENT_OVERRIDES = {'u:dynamic-params': {0: ('infer', 5, 12), 2: ('infer', 3, 10)}}
 
 MENU_SEEDS = [0, 1, 2, 3, 7, 42]
 
@@ -210,6 +240,9 @@ def battery(script, text, methods=PROBE_METHODS, limit=None):
 
 def new_script(text, tag):
     jedi = boot.boot()
+    # the path is specific to the program text: Scripts of different programs never share one
+    import hashlib
+    tag = '%s_%s' % (tag, hashlib.sha1(text.encode('utf-8')).hexdigest()[:10])
     root = os.path.join(boot.scratch_root(), 'c16', tag)
     os.makedirs(root, exist_ok=True)
     return jedi.Script(text, path=os.path.join(root, 'main.py'),
@@ -344,7 +377,7 @@ def _work_sched(task):
 
 
 # ---------------------------------------------------------------- (ii) repetition
-def _events(text):
+def _events(text, pid=None):
     pos = ident_positions(text)
     mid = pos[len(pos) // 2]
     last = pos[-1]
@@ -352,6 +385,13 @@ def _events(text):
     lone = [p for p in pos if text.split('\n')[p[0] - 1].strip().isidentifier()]
     if lone:
         mid = lone[0]       # a name alone on its line: inferring it runs the whole flow to it
+    evs = _base_events(text, pos, mid, last, nlines)
+    for k, ev in EVENT_OVERRIDES.get(pid, {}).items():
+        evs[k] = ev
+    return evs
+
+
+def _base_events(text, pos, mid, last, nlines):
     return [('infer', mid[0], mid[1]), ('complete', last[0], last[2]), ('goto', last[0], last[1]),
             ('get_references', mid[0], mid[1]), ('get_references_file', mid[0], mid[1]),
             ('infer', nlines + 5, 0),                      # raises ValueError
@@ -375,7 +415,7 @@ def _do_event(script, ev):
 
 def _work_rep(task):
     text = task['text']
-    events = _events(text)
+    events = _events(text, task['id'])
     # reference: every probe asked on its OWN fresh Script (nothing asked before it)
     keys = list(battery_plan(text, limit=task['limit']))
     fresh = {}
@@ -502,11 +542,11 @@ def run(ctx):
     seqs = [list(s) for d in range(1, depth + 1) for s in itertools.product(range(8), repeat=d)]
     # repetition runs on programs whose answers do not depend on set order (the order-dependent
     # ones are the subject of (i) and would make "same answer again" depend on object addresses)
-    det = [(p, t) for p, t in progs if p in ('u:exec-budget', 'u:rebinding')]
+    det = [(p, t) for p, t in progs if p in ('u:exec-budget', 'u:rebinding', 'u:dynamic-params')]
     for chain in (['identity'], ['init_attr'], ['closure', 'method_ret'], ['generator_for']):
         pp = pf.build('inst', chain)
         det.append((pp.pid(), pp.render()['main.py']))
-    rep_progs = det[:4] if tier == 'quick' else det
+    rep_progs = det[:5] if tier == 'quick' else det
     tasks = []
     for pid, text in rep_progs:
         chunk = max(1, len(seqs) // 16)
